@@ -9,15 +9,15 @@ EXPLANATION = (
     'Decides per SocketAddress impl: (R1) writer/reader agreement — the sockaddr_* fields written by '
     'into_storage are exactly the fields read back by init (padding excluded) and byte-order conversions pair '
     'up (to_be<->from_be, from_ne_bytes<->to_ne_bytes, raw<->raw), each field carrying the matching accessor '
-    '(port, ip/octets, flowinfo, scope_id); SocketAddr (either family) dispatches on the family field in both '
-    'directions; (R2) pointer/length shape — as_ptr/as_mut_ptr return the address of the storage parameter and '
-    "a length that is size_of of the family's struct (selected by the family field for the either-family "
-    "type); (R3) the Unix reader cuts the path at a NUL before from_pathname (the kernel's length includes the "
-    'terminator) and cuts nothing off the bytes given to from_abstract_name (NULs are part of abstract names); '
-    '(R5) the view of sun_path is bounded by the storage size (the kernel reports 111 for a 108-byte path); '
-    '(R4) for sockaddr_un the length given to the kernel must depend on the address (abstract and unnamed '
-    'addresses are length-delimited) — known finding K4. Equality of the round trip for all values is not '
-    'decided.'
+    '(port, ip/octets, flowinfo, scope_id) on every path (no value chosen on a condition); SocketAddr (either '
+    'family) dispatches on the family field in both directions; (R2) pointer/length shape — as_ptr/as_mut_ptr '
+    "return the address of the storage parameter and a length that is size_of of the family's struct (selected "
+    'by the family field for the either-family type); (R3) the Unix reader cuts the path at a NUL before '
+    "from_pathname (the kernel's length includes the terminator) and cuts nothing off the bytes given to "
+    'from_abstract_name (NULs are part of abstract names); (R5) the view of sun_path is bounded by the storage '
+    'size (the kernel reports 111 for a 108-byte path); (R4) for sockaddr_un the length given to the kernel '
+    'must depend on the address (abstract and unnamed addresses are length-delimited) — known finding K4. '
+    'Equality of the round trip for all values is not decided.'
 )
 NOT_DECIDED = "value equality of the round trip for all addresses"
 ASSUMPTIONS = ["std::net accessors (port, ip, octets, flowinfo, scope_id) are each other's inverses with the constructors"]
